@@ -341,11 +341,11 @@ class H(Harness):
     ID = 'C16'
     TIE_IMPORT = 'From EpyV Require Import Model.GF Tie.C16.'
     CHECK_FN = 'EpyV.Tie.C16.check_case'
-    QUICK_N = 700
+    QUICK_N = 600
     THOROUGH_N = 6000
     ALLOWED_AXIOMS = set()
     COST_LIMIT = 60000          # model work per case (un-memoised coefficient recursion + evaluation)
-    EVAL_LIMIT = 160            # leaves x points per case (each is a 301-term Fraction loop in the implementation)
+    EVAL_LIMIT = 120            # leaves x points per case (each is a 301-term Fraction loop in the implementation)
     RULE = ('programs over gf_from_coefficients / gf_from_coefficient_function leaves (Fraction lists of length 0-6, a few of '
             'length 299-301), the operators + - * with GF operands, + - * / with Fraction operands (including / 0), dx(k) and dx() '
             'anywhere in the tree, k in 0..6; every operator shape of depth <= 2 over 6 unary and 3 binary operators (thorough: also '
@@ -409,21 +409,25 @@ class H(Harness):
         return out
 
     def execute(self, case):
-        zerodiv = False
+        # exceptions of the GF operators on a well-formed program are observable behaviour
         try:
             g = build_py(case['expr'])
+            coeffs = [g[i] for i in case['idx']]
+            values = [g(fr(x)) for x in case['pts']]
         except ZeroDivisionError:
-            return {'zerodiv': True, 'coeffs': [], 'values': []}
-        coeffs = [g[i] for i in case['idx']]
-        values = [g(fr(x)) for x in case['pts']]
+            return {'zerodiv': True, 'raised': None, 'coeffs': [], 'values': []}
+        except (RecursionError, ArithmeticError, LookupError, TypeError, ValueError, AttributeError, NotImplementedError) as e:
+            return {'zerodiv': False, 'raised': type(e).__name__, 'coeffs': [], 'values': []}
         bad = [repr(v) for v in coeffs + values if not isinstance(v, (int, Fraction))]
         if bad:
-            raise TypeError('non-exact value from exact inputs: ' + bad[0])
-        return {'zerodiv': zerodiv, 'coeffs': [fs(v) for v in coeffs], 'values': [fs(v) for v in values]}
+            return {'zerodiv': False, 'raised': 'non-exact value from exact inputs: ' + bad[0], 'coeffs': [], 'values': []}
+        return {'zerodiv': False, 'raised': None, 'coeffs': [fs(v) for v in coeffs], 'values': [fs(v) for v in values]}
 
     def direct(self, case, obs):
         v = []
         e = case['expr']
+        if obs['raised']:
+            return [{'signature': 'raised-' + obs['raised'].split(':')[0], 'detail': obs['raised']}]
         try:
             p = p_of(e)
         except DivisionByZero:
